@@ -258,8 +258,10 @@ func newUnifySysOrdered(r *vcore.Run, u *universe, cfg alphabetConfig, pol ociun
 		// members whose upload IDs change with every write (see genIDMember)
 		i0, i1 = newGenIDMember(m0), newGenIDMember(m1)
 	}
+	var gate *orderGate
 	if firstMember >= 0 {
 		g := newOrderGate()
+		gate = g
 		i0 = &gatedMember{Interface: m0, g: g, late: firstMember != 0}
 		i1 = &gatedMember{Interface: m1, g: g, late: firstMember != 1}
 	}
@@ -330,6 +332,16 @@ func newUnifySysOrdered(r *vcore.Run, u *universe, cfg alphabetConfig, pol ociun
 			}
 			if s.depth > failAt {
 				tainted = true // too deep for a failure followed by a retry: same states as the failure-free run
+			}
+		}
+		if gate != nil {
+			gate.mu.Lock()
+			broken := gate.broken
+			gate.broken = ""
+			gate.mu.Unlock()
+			if broken != "" {
+				s.r.Violate("history", fmt.Sprintf("C15/%s/member-calls-out-of-step", op.K), s.caseOf(nil), "every operation sent to both members reaches both before the unifier moves on", broken)
+				return true
 			}
 		}
 		if !check {
